@@ -43,9 +43,11 @@ RULE = ("exhaustive: every list of <= N children over all valid (min<=preferred<
         "take_using_weights; a case is non-trivial when at least one division has to grow a child")
 EXHAUSTIVE = True
 EXHAUSTIVE_SCOPE = {
-    "quick": "children<=2 over min in {0,1}, preferred<=2, max in {..2,unbounded}, weight in {0,1,2}; avail 0..8; h/v",
-    "thorough": "children<=2 over min in {0,1,2}, preferred<=3, max in {..3,unbounded}, weight in {0,1,2,3} and "
-                "children=3 over the quick alphabet; avail 0..10; h/v"}
+    "quick": "children<=2 over min in {0,1}, preferred<=2, max in {..2,unbounded}, weight in {0,1,2}; children=3 over "
+             "min in {0,1}, preferred<=1, max in {..1,unbounded}, weight in {0,1,2}; avail 0..8; HSplit and VSplit",
+    "thorough": "children<=2 over min in {0,1,2}, preferred<=3, max in {..3,unbounded}, weight in {0,1,2,3}; children=3 "
+                "over the quick 2-children alphabet; children=4 over min in {0,1}, preferred<=1, max in {..1,unbounded}, "
+                "weight in {0,1}; avail 0..10; HSplit and VSplit"}
 TRUSTED = ["harness/c12.py compares the return value of _divide_heights/_divide_widths (watchdog: a run longer than "
            "the time limit is 'err:Hang') and Screen.visible_windows_to_write_positions after write_to_screen",
            "Ptk/Model/C12.lean is a hand translation of dimension.py, take_using_weights and the divide/grow code "
@@ -493,15 +495,18 @@ def cases(tier, rng):
         ws = [rng.choice([0, 1, 1, 2, 3, 7, 10, rng.randrange(0, 40)]) for _ in range(n)]
         yield {"kind": "take", "k": rng.choice([10, 40, 120]), "weights": ws}
     # --- exhaustive small scope on the real splits
+    tiny = child_alphabet([0, 1], 1, [0, 1, 2])
+    mid = child_alphabet([0, 1], 2, [0, 1, 2])
     if quick:
-        alpha = child_alphabet([0, 1], 2, [0, 1, 2])
-        lists = [[a] for a in alpha] + [[a, b] for a in alpha for b in alpha]
+        lists = ([[a] for a in mid] + [[a, b] for a in mid for b in mid]
+                 + [[a, b, c] for a in tiny for b in tiny for c in tiny])
         avails = list(range(0, 9))
     else:
-        alpha = child_alphabet([0, 1, 2], 3, [0, 1, 2, 3])
-        small = child_alphabet([0, 1], 2, [0, 1, 2])
-        lists = ([[a] for a in alpha] + [[a, b] for a in alpha for b in alpha]
-                 + [[a, b, c] for a in small for b in small for c in small])
+        big = child_alphabet([0, 1, 2], 3, [0, 1, 2, 3])
+        tiny2 = child_alphabet([0, 1], 1, [0, 1])
+        lists = ([[a] for a in big] + [[a, b] for a in big for b in big]
+                 + [[a, b, c] for a in mid for b in mid for c in mid]
+                 + [list(t) for t in itertools.product(tiny2, repeat=4)])
         avails = list(range(0, 11))
     yield {"kind": "split", "dir": "h", "align": 3, "pad": 0, "children": [], "avails": avails, "done": 0,
            "wp": [1, 2, 4, 5]}
